@@ -1,2 +1,2 @@
--- stub: replaced by the family's driver
-def main : IO Unit := IO.println "family funcs: no driver yet"
+import PrimitivModel.Driver.FuncsDrv
+def main : IO Unit := Primitiv.Drv.FuncsDrv.main
